@@ -248,6 +248,20 @@ Proof.
 Qed.
 Print Assumptions C16_leaf_correspondence_is_one_to_one.
 
+(* ... hence the NUMBER of leaves of Dendrogram.compute itself (no pruning parameters, ties
+   included) is the same on the two grids (LeafCount.v: counting lemma over the one-to-one
+   correspondence; leaves f = the structures of f without children) *)
+From Dendro Require Import LeafCount.
+Theorem C16_number_of_leaves_is_invariant :
+  forall shape shape' per per' g, giso shape per shape' per' g -> allpos shape -> allpos shape' ->
+  forall vals vals' minv,
+    (forall pv, In pv (kept vals minv) -> inrange shape (fst pv)) ->
+    carried g (kept vals minv) (kept vals' minv) ->
+    length (leaves (compute shape (AdjGrid per) vals minv [])) =
+    length (leaves (compute shape' (AdjGrid per') vals' minv [])).
+Proof. exact compute_leaf_count_iso. Qed.
+Print Assumptions C16_number_of_leaves_is_invariant.
+
 (* ------------------------------------------------------------------------------------------
    "With distinct values and no pruning, raising min_value only removes the pixels at or below
    the new threshold from every structure and drops the structures left empty."
